@@ -27,7 +27,15 @@ pub struct RustDocument {
 
 impl RustDocument {
     pub fn init(doc: &Document) -> Self {
+        Self::init_with_namespaces(doc, &[])
+    }
+
+    /// Start a document that already knows the namespaces of the document importing it, so that one
+    /// namespace keeps one abbreviation and an abbreviation is never handed out twice across the files
+    /// of one generation.
+    pub fn init_with_namespaces(doc: &Document, known_namespaces: &[Rc<Namespace>]) -> Self {
         let mut me = Self::empty();
+        me.namespaces = known_namespaces.to_vec();
         // parse namespaces on the root element
         collect_namespaces_on_node(doc.root_element(), &mut me);
         me
